@@ -59,7 +59,11 @@ fn get_summary_range_delta_indicies(
         Date::from_calendar_date(3000, time::Month::January, 1).unwrap();
     // for _, delta := range deltas[latestDeltaInSummaryRangeIdx+1:] {
     for delta in &deltas[latest_delta_in_summary_range_idx + 1..] {
-        if delta.is_superficial_loss() {
+        // A sale at a loss that was *not* superficial must be protected too: the
+        // summary Buy is dated at the last summarized tx, and would otherwise
+        // become an acquisition inside this sale's 30-day period on re-import.
+        let is_capital_loss = delta.capital_gain.map(|g| is_negative(&g)).unwrap_or(false);
+        if delta.is_superficial_loss() || is_capital_loss {
             first_superficial_loss_period_day =
                 get_first_day_in_superficial_loss_period(delta.tx.settlement_date);
             tx_in_summary_overlaps_superficial_loss =
@@ -67,10 +71,11 @@ fn get_summary_range_delta_indicies(
             if tx_in_summary_overlaps_superficial_loss {
                 debug!(
                     "get_summary_range_delta_indicies: {} tx in {} settled on {} is in SFL period \
-                    (starting {}) of tx settled on {} (SFL of {})",
+                    (starting {}) of tx settled on {} (SFL of {:?})",
                     latest_in_summary_tx.security, latest_in_summary_tx.affiliate.name(),
                     latest_in_summary_tx.settlement_date, first_superficial_loss_period_day,
-                    delta.tx.settlement_date, *delta.sfl.as_ref().unwrap().superficial_loss,
+                    delta.tx.settlement_date,
+                    delta.sfl.as_ref().map(|sfl| *sfl.superficial_loss),
                 );
             }
             break;
